@@ -55,6 +55,11 @@ func Real() { mu.Lock(); virtual = false; timers = nil; mu.Unlock() }
 // IsVirtual reports the mode.
 func IsVirtual() bool { return virtual }
 
+// Zone is the local time zone of the simulated machine: like time.Now, the virtual clock hands out times in the
+// local zone, and a machine's zone is rarely UTC. Code that puts a time on the wire or into a key without .UTC()
+// shows under it. Harness code compares instants with Equal/Before/After or .UTC() first.
+var Zone = time.FixedZone("VERIF+0530", 5*3600+1800)
+
 func Now() time.Time {
 	if !virtual {
 		return time.Now()
@@ -62,13 +67,13 @@ func Now() time.Time {
 	if vsched.S != nil {
 		Reads++
 		now = now.Add(AutoTick)
-		return now
+		return now.In(Zone)
 	}
 	mu.Lock()
 	defer mu.Unlock()
 	Reads++
 	now = now.Add(AutoTick)
-	return now
+	return now.In(Zone)
 }
 
 func Since(t time.Time) time.Duration { return Now().Sub(t) }
@@ -98,7 +103,7 @@ func Set(t time.Time) {
 			vsched.Go(tm.f)
 		} else {
 			select {
-			case tm.c <- t:
+			case tm.c <- t.In(Zone):
 			default:
 			}
 		}
@@ -142,7 +147,7 @@ func NewTimer(d time.Duration) *Timer {
 		// instead of spinning on a frozen clock
 		now = now.Add(time.Nanosecond)
 		t.active = false
-		c <- now
+		c <- now.In(Zone)
 	} else {
 		timers = append(timers, t)
 	}
